@@ -329,6 +329,18 @@ func (g *pgen) pipeline() *doc.Node {
 				g.blockStrings = append(g.blockStrings, v.Str)
 			}
 		}
+		// names built by expansion that land on another entry's original spelling (the block is renamed entry by
+		// entry, so one entry displaces the other and the map carries a deleted slot afterwards)
+		if len(g.o.Refs) > 0 && g.chance(3) {
+			id := "#" + g.uid.Next()
+			ch := [][]string{{"$$X", "$X"}, {"$X", "$$X"}, {"$$$$X", "$$X", "$X"}, {"\\$Y", "$Y"}}[g.r.IntN(4)]
+			for _, k := range ch {
+				v := g.strNode("pipeline.env")
+				e.Map = append(e.Map, doc.P(k+id, v))
+				g.pipeEnvNames = append(g.pipeEnvNames, k+id)
+			}
+			g.feat("pipeline.env:shadow-key-chain")
+		}
 		if len(e.Map) == 0 && g.chance(2) {
 			envPair = doc.P("env", doc.Null())
 		} else {
